@@ -156,6 +156,28 @@ func VP_C12_Canonical() {
 		ok = ok && bytes.Equal(ritems[len(items)-1-i], items[i])
 	}
 	vpAssert(ok, "reverse complement yields the same items in opposite order")
+	// the same buffer refilled with another sequence of the same length (a
+	// read buffer re-used for the next read) and scanned again, with no call on
+	// another slice in between
+	if vpCaseOr("refill", 0) == 1 {
+		next := vpBytes("next", n)
+		for _, b := range next {
+			vpAssume(vpIsDNA10(b))
+		}
+		for range CanonicalSubsequences(seq, k) { // the latest call is on seq
+		}
+		copy(seq, next)
+		var again [][]byte
+		for km := range CanonicalSubsequences(seq, k) {
+			again = append(again, append([]byte(nil), km...))
+		}
+		ok = len(again) == want
+		for i := 0; ok && i < want; i++ {
+			w := next[i : i+k]
+			ok = ok && bytes.Equal(again[i], vpLexMin(w, vpRC(w)))
+		}
+		vpAssert(ok, "a buffer refilled with another sequence gives that sequence's canonical k-mers")
+	}
 	vpReach("end")
 }
 
